@@ -1639,46 +1639,6 @@ func main() {
 	r = vk.New("model_checking")
 	r.SetBudget(150*time.Second, 25*time.Minute)
 
-	if p := os.Getenv("VERIF_C15_PROFILE"); p != "" {
-		f, _ := os.Create(p)
-		pprof.StartCPUProfile(f)
-		defer pprof.StopCPUProfile()
-		t0 := time.Now()
-		h := newHist()
-		fmt.Println("first chain", time.Since(t0))
-		t0 = time.Now()
-		h = newHist()
-		fmt.Println("second chain", time.Since(t0))
-		{
-			bk, _ := h.c.Base.VerifStoreKeys()
-			cnt := map[string]int{}
-			for _, e := range readKVs(h.c.Base.VerifDeliverMultiStore().GetStore(bk), nil, nil) {
-				p := e.k
-				if i := strings.IndexAny(p, ":/"); i >= 0 && i < 12 {
-					p = p[:i+1]
-				} else if len(p) > 1 {
-					p = p[:1]
-				}
-				cnt[show(p)]++
-			}
-			fmt.Println("base key prefixes:", cnt)
-		}
-		t0 = time.Now()
-		rc := newRecipe(send(A.Addr, C.Addr, 100))
-		rc.slots[0].seqD = 1
-		tx := rc.build(h.m)
-		for i := 0; i < 200; i++ {
-			h.deliver(tx, "bench")
-		}
-		fmt.Println("200 rejected deliveries", time.Since(t0))
-		t0 = time.Now()
-		for i := 0; i < 50; i++ {
-			h.deliver(newRecipe(send(A.Addr, C.Addr, 100)).build(h.m), "bench")
-		}
-		fmt.Println("50 accepted deliveries", time.Since(t0))
-		pprof.StopCPUProfile()
-		return
-	}
 	if p := os.Getenv("VERIF_C15_FULLPROFILE"); p != "" {
 		f, _ := os.Create(p)
 		pprof.StartCPUProfile(f)
